@@ -152,7 +152,11 @@ inline bool Futex::Awaitable::await_suspend(
   // by a concurrent wake at any time, so take what is needed out of *this first
   auto on_suspend = ::std::move(_on_suspend);
   auto success = _futex->add_awaiter(node, _expected_value);
-  if (success && on_suspend) {
+  if (!success) {
+    // Not suspended, nobody else knows the id: give the slot back
+    box.take_released(id);
+    box.finish_released(id);
+  } else if (on_suspend) {
     on_suspend({id});
   }
   return success;
